@@ -14,7 +14,7 @@
 (*   path    [op, abs: BOOLEAN, steps: Seq(Step)]                           *)
 (*   filter  [op, prim: Expr, preds: Seq(Expr), steps: Seq(Step)]           *)
 (*   or and eq ne lt le gt ge add sub mul div mod union  [op, l, r]         *)
-(*   neg [op, a]   num [op, v]   lit [op, v]   var [op, pre, lo]            *)
+(*   neg [op, a]   num [op, v]   lit [op, s]   var [op, pre, lo]            *)
 (*   call [op, pre, lo, args: Seq(Expr)]                                    *)
 (* Step  [ax, test, preds: Seq(Expr)]  or  [fn |-> call]  (the library's    *)
 (*   documented extension: a function call used as a step; it is evaluated  *)
@@ -40,6 +40,11 @@ PickErr(vs) == IF \E v \in vs : IsErr(v) /\ v.why \notin SkipWhys
                THEN CHOOSE v \in vs : IsErr(v) /\ v.why \notin SkipWhys
                ELSE CHOOSE v \in vs : IsErr(v)
 AnyErr(vs) == \E v \in vs : IsErr(v)
+\* the same over sequences (TLC cannot build a set of values of different types)
+AnyErrSeq(sq) == \E i \in 1..Len(sq) : IsErr(sq[i])
+PickErrSeq(sq) == IF \E i \in 1..Len(sq) : IsErr(sq[i]) /\ sq[i].why \notin SkipWhys
+                  THEN sq[CHOOSE i \in 1..Len(sq) : IsErr(sq[i]) /\ sq[i].why \notin SkipWhys]
+                  ELSE sq[CHOOSE i \in 1..Len(sq) : IsErr(sq[i])]
 
 Ctx(n) == [cur |-> {n}, pos |-> 1, size |-> 1]
 
@@ -174,8 +179,7 @@ ApplyPreds(d, env, seq, preds, j) ==
                       IN IF IsErr(v) THEN v
                          ELSE IF v.t = "num" THEN (IF IsUnk(v.v) THEN Err("unk") ELSE BoolV(NumEq(v.v, NInt(i))))
                          ELSE ToBoolV(d, v)]
-           rng == {vals[i] : i \in 1..Len(seq)}
-       IN IF AnyErr(rng) THEN [ok |-> FALSE, err |-> PickErr(rng)]
+       IN IF AnyErrSeq(vals) THEN [ok |-> FALSE, err |-> PickErrSeq(vals)]
           ELSE LET idx == SelectSeq([i \in 1..Len(seq) |-> i], LAMBDA i : vals[i].v)
                IN ApplyPreds(d, env, [k \in 1..Len(idx) |-> seq[idx[k]]], preds, j + 1)
 
@@ -277,16 +281,15 @@ CallUser(d, f, args, ctx) ==
 
 Eval(d, env, e, ctx) ==
   CASE e.op = "num" -> NumV(e.v)
-    [] e.op = "lit" -> StrV(e.v)
+    [] e.op = "lit" -> StrV(e.s)
     [] e.op = "var" ->
          IF ~Bound(env, e.pre) THEN Err("unbound-prefix")
          ELSE LET is == FindVar(env, Uri(env, e.pre), e.lo) IN
               IF is = {} THEN Err("unbound-variable") ELSE AsValue(env.vars[MinOf(is)].val)
     [] e.op = "call" ->
          LET argv == [i \in 1..Len(e.args) |-> Eval(d, env, e.args[i], ctx)]
-             rng == {argv[i] : i \in 1..Len(e.args)}
          IN IF ~Bound(env, e.pre) THEN Err("unbound-prefix")
-            ELSE IF AnyErr(rng) THEN PickErr(rng)
+            ELSE IF AnyErrSeq(argv) THEN PickErrSeq(argv)
             ELSE LET fs == FindFunc(env, Uri(env, e.pre), e.lo) IN
                  IF fs # {} THEN CallUser(d, env.funcs[MinOf(fs)], argv, ctx)
                  ELSE IF e.pre = "" /\ e.lo \in BuiltinNames THEN CallBuiltin(d, env, e.lo, argv, ctx)
